@@ -66,6 +66,14 @@ def cases(draw):
         # the same parsed route (one object, as one API line puts it into several Adj-RIB-Out) is then sent on a second
         # session of the other kind: what the first session was sent must not be what the second one gets
         other = dict(sess)
+        if draw(st.integers(0, 3)) == 0 and sess['peer_as'] <= 65535 and sess['local_as'] <= 65535:
+            # the same pair of AS numbers, the other AS width (two routers of one peer AS, one of them an old speaker)
+            other['peer_asn4'] = not sess['peer_asn4']
+            other['our_asn4'] = True
+            other['same_as_pair_other_width'] = True
+            other['alt_local'] = draw(st.booleans())
+            case['also'] = other
+            return case
         if sess['local_as'] == sess['peer_as']:
             other['peer_as'] = 64999 if sess['local_as'] != 64999 else 64998
         else:
@@ -146,6 +154,8 @@ def check(case: dict) -> dict:
     if case.get('also') and 'parsed' in holder:
         second = _check({'route': case['route'], 'session': case['also']}, holder)
         first['classes'] = list(first['classes']) + ['same-route-object-on-a-second-session', 'second:' + ('ebgp' if case['also']['local_as'] != case['also']['peer_as'] else 'ibgp')]
+        if case['also'].get('same_as_pair_other_width'):
+            first['classes'].append('second:same-as-pair-other-as-width')
         if case['also'].get('alt_local'):
             first['classes'].append('second:other-local-address')
             if case['route']['nexthop'] == 'self':
